@@ -3,6 +3,14 @@
 HOOK_COMMITS = []
 
 CHECKS = [
+  {"property_id": "C01", "level": "exploration",
+   "technique": "bounded-exhaustive program enumeration; differential against CPython execution under all branch-condition answers",
+   "text": "Every loop-free program of the PS-core alphabet up to the tier's sequence length (quick: all single statements + all 2-sequences over the core templates; thorough: all 2-sequences over all templates) is analysed by the real pipeline (generate_pyi, real C++ solver) and executed under CPython for all four answers of two conditions that are opaque to pytype; every module-level name, instance attribute and program-function call result must be admitted by the stub under a PEP-484 membership oracle.",
+   "note": "Bounded by the statement alphabet in vk/progspace.py. Trusted: vk/admits.py oracle (unknown names / TypeVars admit everything, which can only hide violations). Quick tier shares one loader per worker and re-checks any violation with a fresh loader."},
+  {"property_id": "C05", "level": "exploration",
+   "technique": "bounded-exhaustive enumeration of emitted and generated stubs; parse/verify/print fixpoint laws plus an independent CPython-ast reader as cross-check",
+   "text": "Stubs emitted for every program of a definitions-rich alphabet and of PS-core, and every generated stub (each declaration form x each type form to depth 2, two-hole forms x ordered type pairs, declaration forms pairwise, import forms), must parse with pytype's parser, pass VerifyVisitor, be a fixed point of canonical_pyi (after one round for generated stubs), and pytype's reading must agree with an independent reading of the same text by CPython's ast module (names, parameter kinds/defaults, annotation terms, bases).",
+   "note": "Bounded by vk/stubspace.py and the program alphabets. Trusted: the cross-reader in vk/checks/c05.py and vk/admits.py term conversion."},
   {"property_id": "C07", "level": "exploration",
    "technique": "bounded-exhaustive enumeration of typegraphs and queries on the real solver vs a path-enumerating reference solver",
    "text": "Every typegraph within the bound (all edge subsets acyclic and cyclic, every binding-to-variable assignment, every origin placement, all <=D deviations: extra origins, source-set members, extra source sets, node conditions) is built on the real cfg.Program; every node x every binding subset of size <=3 is queried through HasCombination/CanHaveCombination/IsVisible/Filter/Bindings and compared with a reference that enumerates backward walks (equality on acyclic unconditioned graphs, completeness with conditions and cycles, goal reachability and subset closure everywhere).",
